@@ -21,7 +21,7 @@ theorem findAllMatches_spec (acc : List Nat → Bool) (nv : List Nat → Except 
     (hnv : NextValidSpec acc nv) (wl : List (List Nat)) (hv : ∀ t, t ∈ wl → Valid t)
     (hs : SortedLex wl) :
     findAllMatches nv wl = .ok (wl.filter fun t => decide (t ≠ []) && acc t) := by
-  have hv0 : Valid [0] := by intro c hc; simp at hc; subst hc; exact Nat.zero_le _
+  have hv0 : Valid [0] := by intro c hc; simp at hc; subst hc; exact ⟨Nat.zero_le _, Or.inl (by omega)⟩
   unfold findAllMatches
   obtain ⟨r, hr⟩ : ∃ r, nv [0] = .ok r := by
     rcases hnv [0] hv0 with ⟨h, _⟩ | ⟨m, h, _⟩
